@@ -70,7 +70,16 @@ def cases(ctx):
         r = ctx.rng("C09seq", j)
         c = gen.rand_circuit(r, n_in=r.randint(1, 3), n_gates=r.randint(2, 7), max_fanin=3, out_is_input=0.3)
         nf = r.randint(1, 3)
-        gen.add_flops(r, c, nf)
+        big = j % 4 == 3
+        if big:
+            # a library cell with one-letter data pins and a two-letter complement output / clock
+            import circuitgraph as cg
+
+            gen.add_flops(r, c, nf, bbtype=cg.BlackBox("DFFQ", ["CK", "D"], ["Q", "QN"]), d="D", q="Q")
+        else:
+            gen.add_flops(r, c, nf)
+        if r.random() < 0.25:
+            c.graph.add_node("scan_en", type="input", output=False)      # a primary input nothing reads (lint-clean)
         if r.random() < 0.3:
             # primary ports whose names end like pin names (en_clk, y_q, s_d)
             import networkx as nx
@@ -97,7 +106,8 @@ def cases(ctx):
             if nin * n + nf > 12:
                 n = 1
             yield {"op": "sequential_unroll", "c": p, "n": n, "iv": iv, "afo": r.random() < 0.5, "ru": r.random() < 0.6,
-                   "ign": r.choice(["clk", "clk", ["clk"], None]), "src": "SEQ"}
+                   "ign": r.choice(["CK", ["CK", "QN"], "QN", ["QN"], None]) if big else r.choice(["clk", "clk", ["clk"], None]),
+                   "dq": ["D", "Q"] if big else ["d", "q"], "src": "SEQ"}
 
 
 def run_case(case, ctx):
@@ -115,13 +125,14 @@ def run_case(case, ctx):
                 "nontrivial": case["n"] >= 2 and bool(case["sio"])}
     iv = case["iv"]
     arg = iv if (iv is None or isinstance(iv, str)) else {k: v for k, v in iv}
+    dpin, qpin = case.get("dq", ["d", "q"])
     if case.get("ign", "clk") is None:
         try:   # an earlier call on the same object (other pin handling) must leave no trace in the circuit or its blackboxes
-            cg.tx.sequential_unroll(c, 1, "d", "q", ignore_pins=["clk"], remove_unloaded=True)
+            cg.tx.sequential_unroll(c, 1, dpin, qpin, ignore_pins=["clk"] if dpin == "d" else ["CK"], remove_unloaded=True)
         except Exception:
             pass
     try:
-        uc, iomap = cg.tx.sequential_unroll(c, case["n"], "d", "q", ignore_pins=case.get("ign", "clk"), add_flop_outputs=case["afo"],
+        uc, iomap = cg.tx.sequential_unroll(c, case["n"], dpin, qpin, ignore_pins=case.get("ign", "clk"), add_flop_outputs=case["afo"],
                                             initial_values=arg, remove_unloaded=case["ru"])
     except Exception as e:
         exc = type(e).__name__
@@ -134,7 +145,7 @@ def run_case(case, ctx):
         d = {k: v for k, v in iv}
         init = [[i, d.get(i, "free")] for i in insts]
     ign = case.get("ign", "clk")
-    return {"kind": "sequential_unroll", "c": case["c"], "n": case["n"], "d": "d", "q": "q", "add_flop_outputs": case["afo"],
+    return {"kind": "sequential_unroll", "c": case["c"], "n": case["n"], "d": dpin, "q": qpin, "add_flop_outputs": case["afo"],
             "ignore": [] if ign is None else [ign] if isinstance(ign, str) else list(ign), "remove_unloaded": case["ru"],
             "init": init, "uc": proj(uc) if uc is not None else {}, "iomap": [[k, list(v)] for k, v in sorted(iomap.items())],
             "exc": exc, "nontrivial": case["n"] >= 2}
